@@ -16,15 +16,21 @@ theorem C02_translated_into_server (C : Crypto) (be : Backend) (p : SrpProof) (A
   simp only [SrpProof.intoServer]
   cases hK : calculateSessionKey C be A p.serverPublicKey p.passwordVerifier p.serverPrivateKey with
   | panic m =>
-    simp [Gen.CodeApi.intoServer, ApiFn.run, runBody, Rhs.eval, Ret.eval, atomsVal, fieldsVal, Atom.val, lookup, bindVar, srpPrims, outBytes,
+    simp [Gen.CodeApi.intoServer, ApiFn.run, runBody, Rhs.eval, drawKinds, Ret.eval, atomsVal, fieldsVal, Atom.val, lookup, bindVar, srpPrims, outBytes,
       selfProof, hK, Out.bind, bind]
   | ok K =>
     by_cases hM : M1 = calculateClientProof C p.username.asRef K A p.serverPublicKey p.salt
-    · simp [Gen.CodeApi.intoServer, ApiFn.run, runBody, Rhs.eval, Ret.eval, atomsVal, fieldsVal, Atom.val, lookup, bindVar, srpPrims, outBytes,
+    · simp [Gen.CodeApi.intoServer, ApiFn.run, runBody, Rhs.eval, drawKinds, Ret.eval, atomsVal, fieldsVal, Atom.val, lookup, bindVar, srpPrims, outBytes,
         selfProof, valServer, valMatchErr, eqVal, hK, hM, Out.bind, bind]
     · have hb : (M1 == calculateClientProof C p.username.asRef K A p.serverPublicKey p.salt) = false := by simp [hM]
-      simp [hb, Gen.CodeApi.intoServer, ApiFn.run, runBody, Rhs.eval, Ret.eval, atomsVal, fieldsVal, Atom.val, lookup, bindVar, srpPrims, outBytes,
+      simp [hb, Gen.CodeApi.intoServer, ApiFn.run, runBody, Rhs.eval, drawKinds, Ret.eval, atomsVal, fieldsVal, Atom.val, lookup, bindVar, srpPrims, outBytes,
         selfProof, valServer, valMatchErr, eqVal, hK, hM, Out.bind, bind]
 
+/-- the parameter lists and return types the terms above were read under (the terms carry parameter NAMES; the types decide what a
+    conversion such as `Generator::from(generator)`, `.into()` or `?` means) -/
+theorem C02_translated_into_server_signature :
+    Gen.CodeApi.intoServerSig = "self,client_public_key:PublicKey,client_proof:[u8;PROOF_LENGTH as usize],->Result<(SrpServer,[u8;PROOF_LENGTH as usize]),MatchProofsError>" := by decide +kernel
+
 #print axioms C02_translated_into_server
+#print axioms C02_translated_into_server_signature
 end WowSrp
